@@ -154,11 +154,11 @@ def judge(item):
                                 FROM_CODE.matches("sink", os.path.join(proj_path, kf), kl, txt[1] or "", ignore_unit=True):
                             # sink_from_code.yaml has a rule for this line whose symbol occurs in the statement text: lian applies
                             # it to every file when it computes the sink's tag, and then every operand counts
-                            w = "rule-restriction-ignored:unit:from-code-sink-rule"
+                            w = w + "|maybe:from-code-sink-rule"     # decided by a compensated re-run
                         whys.append(w)
                 why = whys if whys else "no-dependence"
         for why in ([why] if isinstance(why, str) else (why or [])):
-            res["why_counts"][why] = res["why_counts"].get(why, 0) + 1
+            res["why_counts"][why.split("|maybe:")[0]] = res["why_counts"].get(why.split("|maybe:")[0], 0) + 1
             snk_g = next((g for g in case["gadgets"] if g.get("snk_at") and tuple(g["snk_at"]) == (kf, kl)), None)
             src_g = next((g for g in case["gadgets"] if g.get("src_at") and tuple(g["src_at"]) == (sf, sl)), None)
             res["fails"].append(("unjustified:" + why,
@@ -249,10 +249,11 @@ def main():
         if v["judged"]:
             chk.nontrivial_case(tag)
         for sig, desc, cs in v["fails"]:
-            if sig == "unjustified:no-dependence" and not (len(r.item) > 3 and r.item[3]):
+            compensated = len(r.item) > 3 and r.item[3]
+            if (sig == "unjustified:no-dependence" or "|maybe:" in sig) and not compensated:
                 pending_nodep.append((r.item, sig, desc, cs))
             else:
-                chk.fail(sig, desc, cs)
+                chk.fail(sig.split("|maybe:")[0], desc, cs)
         for w, n in v["why_counts"].items():
             chk.count(f"unjustified flows: {w}", n)
         if samples < 3 and v["judged"] >= 2 and level == "extended":
@@ -285,7 +286,11 @@ def main():
                 chk.count("re-runs with a compensation switch (classification)", 1)
         for item, sig, desc, cs in pending_nodep:
             cured = [sw for sw in switches if (item[0], sw) in cres and tuple(cs["flow"]) not in cres[(item[0], sw)]]
-            if cured == ["from-code-sink-rule"]:
+            if "|maybe:" in sig:
+                sig, sw = sig.split("|maybe:")
+                if sw in cured:
+                    sig = "unjustified:rule-restriction-ignored:unit:from-code-sink-rule"
+            elif cured == ["from-code-sink-rule"]:
                 sig = "unjustified:rule-restriction-ignored:unit:from-code-sink-rule"
             elif len(cured) == 1:
                 sig = sig + ":" + cured[0]
